@@ -58,7 +58,7 @@ func VerifH_C04_O2a_stringsearch_ascii() {
 	tn := verif.Choose("tlen", 4)
 	text := vC04ASCIIN("text", tn)
 	got := stringSearch(text, pattern)
-	verif.Assert((got == vC04FoldContains(text, pattern)) != vC04Neg, "stringsearch-is-ascii-fold-contains")
+	verif.Assert(got == vC04FoldContains(text, pattern), "stringsearch-is-ascii-fold-contains")
 	if got {
 		verif.Reach("match")
 	}
@@ -80,7 +80,7 @@ func vC04CaseFinder(plo, phi, bmax int) {
 	}
 	pass := bf.Eval(nil, buf)
 	// evaluator matches a string value in the buffer  =>  the buffer passes the filter
-	verif.Assert((!vC04FoldContains(string(buf), pattern) || pass) != vC04Neg, "casefinder-drops-matching-value")
+	verif.Assert(!vC04FoldContains(string(buf), pattern) || pass, "casefinder-drops-matching-value")
 	if pass {
 		verif.Reach("pass")
 	} else {
@@ -119,7 +119,7 @@ func VerifH_C04_O2c_nonascii_refused() {
 	}
 	bf := NewBufferFilterForStringCase(pattern)
 	if bf != nil {
-		verif.Assert(!nonASCII != vC04Neg, "nonascii-pattern-gets-casefinder")
+		verif.Assert(!nonASCII, "nonascii-pattern-gets-casefinder")
 		verif.Assert(len(pattern) >= 2, "short-pattern-gets-filter")
 		verif.Reach("filter")
 	} else {
@@ -265,7 +265,7 @@ func vC04FieldNamesN(k, maxA, maxB int) {
 		case vC04InError:
 			verif.Assert(pass, "filter-drops-matching-record/record-in-error")
 		default:
-			verif.Assert(pass != vC04Neg, "filter-drops-matching-record")
+			verif.Assert(pass, "filter-drops-matching-record")
 		}
 		verif.Reach("match")
 	}
@@ -321,25 +321,3 @@ func VerifH_C04_O5_fieldnames_union() { vC04FieldNames(vC04InUnion) }
 // verif:unwind 48
 // verif:solver z3-new
 func VerifH_C04_O5_fieldnames_error() { vC04FieldNames(vC04InError) }
-
-var vC04Neg = false
-
-// verif:desc ZNEG sanity
-// verif:bounds x
-// verif:solver z3-new
-func VerifH_C04_Zneg_O2a() { vC04Neg = true; VerifH_C04_O2a_stringsearch_ascii() }
-
-// verif:desc ZNEG sanity
-// verif:bounds x
-// verif:solver z3-new
-func VerifH_C04_Zneg_O2b() { vC04Neg = true; vC04CaseFinder(2, 2, 2) }
-
-// verif:desc ZNEG sanity
-// verif:bounds x
-// verif:solver z3-new
-func VerifH_C04_Zneg_O2c() { vC04Neg = true; VerifH_C04_O2c_nonascii_refused() }
-
-// verif:desc ZNEG sanity
-// verif:bounds x
-// verif:solver z3-new
-func VerifH_C04_Zneg_O5() { vC04Neg = true; vC04FieldNamesN(vC04Nested, 1, 1) }
